@@ -17,6 +17,7 @@ pub enum SF {
     C18,
     C03,
     C15,
+    C14,
 }
 
 #[derive(Clone, Debug, Hash, PartialEq, Serialize, Deserialize)]
@@ -45,7 +46,7 @@ fn conc_candidates(focus: SF) -> &'static Vec<u32> {
     static B: OnceLock<Vec<u32>> = OnceLock::new();
     match focus {
         SF::C17 | SF::C18 => A.get_or_init(|| static_corpus().funcs.iter().filter(|d| d.family == "conc").map(|d| d.id).collect()),
-        SF::C03 => B.get_or_init(|| static_corpus().funcs.iter().filter(|d| d.family == "concu").map(|d| d.id).collect()),
+        SF::C03 | SF::C14 => B.get_or_init(|| static_corpus().funcs.iter().filter(|d| d.family == "concu").map(|d| d.id).collect()),
         SF::C15 => {
             static C: OnceLock<Vec<u32>> = OnceLock::new();
             C.get_or_init(|| static_corpus().funcs.iter().filter(|d| matches!(d.family, "concu" | "conc")).map(|d| d.id).collect())
@@ -81,7 +82,7 @@ pub fn decode(bytes: &[u8], focus: SF, tier: Tier) -> SchedCase {
     let nt = 2 + if max_threads > 2 && d.chance(1, 3) { 1 } else { 0 };
     let w: [u32; 7] = match focus {
         SF::C17 | SF::C18 => [12, 4, 2, 4, 1, 1, 1],
-        SF::C03 => [10, 0, 0, 0, 0, 0, 0],
+        SF::C03 | SF::C14 => [10, 0, 0, 0, 0, 0, 0],
         SF::C15 => [12, 0, 0, 0, 2, 0, 1],
     };
     let mut threads = Vec::new();
@@ -92,11 +93,11 @@ pub fn decode(bytes: &[u8], focus: SF, tier: Tier) -> SchedCase {
             let op = match d.weighted(&w) {
                 0 => {
                     // favour keys the prefix has cached (races on resident / expired entries)
-                    if !prefix.is_empty() && focus != SF::C03 && d.chance(3, 5) {
+                    if !prefix.is_empty() && focus != SF::C03 && d.chance(if focus == SF::C14 { 4 } else { 3 }, 5) {
                         let (f, k) = prefix[d.choose(prefix.len())];
                         SOp::Call { f, k }
                     } else {
-                        SOp::Call { f: d.choose(fns.len()) as u8, k: d.choose(if focus == SF::C03 { 2 } else { n_keys }) as u8 }
+                        SOp::Call { f: d.choose(fns.len()) as u8, k: d.choose(if matches!(focus, SF::C03 | SF::C14) { 2 } else { n_keys }) as u8 }
                     }
                 }
                 1 => SOp::InvWith { f: d.choose(fns.len()) as u8, mask: d.byte() as u16 },
@@ -504,6 +505,34 @@ pub fn judge(case: &SchedCase, focus: SF, explicit: Option<bool>) -> CaseOut {
                 }
             }
         }
+        SF::C14 => {
+            // global / async scope shares: a value stored by the (sequential) prefix thread is
+            // served to every scheduled thread, whatever the interleaving of their lookups
+            let mut shared_lookups = 0;
+            for r in &run.recs {
+                if let SOp::Call { f, k } = &r.op {
+                    let fi = *f as usize % descs.len();
+                    if case.prefix.iter().any(|(pf, pk)| *pf as usize % descs.len() == fi && pk == k) {
+                        shared_lookups += 1;
+                        if r.executed > 0 && out.violation.is_none() {
+                            out.violation = Some(Violation {
+                                signature: format!("C14:{}:not-shared", fl),
+                                clause: "not-shared".into(),
+                                step: r.i,
+                                expected: format!("{}: thread {} is served the value the prefix thread stored for key index {}", descs[fi].fn_name, r.t, k),
+                                observed: "the body ran in that thread".into(),
+                            });
+                        }
+                    }
+                }
+            }
+            let threads_sharing: BTreeSet<usize> = run.recs.iter().filter(|r| matches!(&r.op, SOp::Call { f, k } if case.prefix.iter().any(|(pf, pk)| pf == f && pk == k))).map(|r| r.t).collect();
+            out.nontrivial = threads_sharing.len() >= 2;
+            if out.nontrivial {
+                out.classes.push("two_threads_read_prefix_value");
+            }
+            let _ = shared_lookups;
+        }
         SF::C03 => {
             // a call that starts after an executing call for the same tuple has returned must hit
             let mut overlapping_same = false;
@@ -589,6 +618,7 @@ sf_fns!(run_c17, desc_c17, SF::C17);
 sf_fns!(run_c18, desc_c18, SF::C18);
 sf_fns!(run_c03, desc_c03, SF::C03);
 sf_fns!(run_c15, desc_c15, SF::C15);
+sf_fns!(run_c14, desc_c14, SF::C14);
 
 pub const SCHED_LEN: usize = 40 + 160;
 
@@ -711,6 +741,7 @@ pub fn exhaustive_stage(focus: SF, tier: Tier, _seed: u64) -> crate::infra::Cust
         SF::C18 => "C18",
         SF::C03 => "C03",
         SF::C15 => "C15",
+        SF::C14 => "C14",
     };
     // spread programs over worker threads (each run is a forked child)
     let progs = Arc::new(progs);
